@@ -216,7 +216,13 @@ class ContainerMixin:
     # ---- dicts --------------------------------------------------------------------------------------
     def dict_set(self, target: DictV, key: V, value: V) -> None:
         if target.entries is None:
-            raise Unsupported("store into a symbolic dict")
+            packed_key = self.pack(key, target.keys.et)
+            packed_val = self.pack(value, target.vt)
+            present = self.contains(target.keys, key)
+            if not self.ctx.branch(present):
+                self.seq_append(target.keys, key)
+            target.vals = z3.Store(target.vals, packed_key, packed_val)
+            return
         for pos, (k, _) in enumerate(target.entries):
             same = self.eq(k, key)
             c = conc_bool(same)
